@@ -19,6 +19,10 @@ OPS = {
     "prop": ("property", lambda o: o.prop),
     "prop_set": ("property", lambda o: setattr(o, "prop", 1)),
     "_prot_prop": ("property", lambda o: o._prot_prop),
+    "wo_prop": ("property", lambda o: setattr(o, "wo_prop", 1)),          # write-only property
+    "ro_prop": ("property", lambda o: o.ro_prop),
+    "ro_prop_setter": ("property", lambda o: setattr(o, "ro_prop", 1)),   # setter added by the subclass to an inherited getter
+    "del_prop": ("property", lambda o: delattr(o, "del_prop")),
     "static": ("staticmethod", lambda o: o.static()),
     "classm": ("classmethod", lambda o: o.classm()),
     "__setattr__": ("function", lambda o: setattr(o, "y", 2)),
@@ -39,6 +43,10 @@ SRC = {
     "prop": "@property\ndef prop(self): return 1\n@prop.setter\ndef prop(self, v): pass",
     "prop_set": "",
     "_prot_prop": "@property\ndef _prot_prop(self): return 1",
+    "wo_prop": "def _wo_set(self, v): pass\nwo_prop = property(fset=_wo_set)",
+    "ro_prop": "@property\ndef ro_prop(self): return 1",
+    "ro_prop_setter": "@L0.ro_prop.setter\ndef ro_prop(self, v): pass",
+    "del_prop": "def _dp_get(self): return 1\ndef _dp_del(self): pass\ndel_prop = property(fget=_dp_get, fdel=_dp_del)",
     "static": "@staticmethod\ndef static(): return 1",
     "classm": "@classmethod\ndef classm(cls): return 1",
     "__setattr__": "def __setattr__(self, k, v): object.__setattr__(self, k, v)",
